@@ -422,6 +422,8 @@ class Evaluator:
         if isinstance(t, ast.Name):
             env[t.id] = v
         elif isinstance(t, (ast.Tuple, ast.List)):
+            if hasattr(v, "__next__") or isinstance(v, (IterStandIn, range, dict, set)):
+                v = list(v)   # unpacking consumes any iterable
             if not isinstance(v, (list, tuple, bytes, str)):
                 raise Undecided("unpacking %s" % type(v).__name__)
             if any(isinstance(e, ast.Starred) for e in t.elts):
@@ -908,7 +910,7 @@ class Evaluator:
                 return True if nm == "hasattr" else v
             if nm in ("len", "int", "bytes", "str", "bool", "list", "tuple", "sorted", "min", "max", "sum", "abs", "range", "reversed", "any", "all",
                       "enumerate", "zip", "hex", "ord", "chr", "divmod", "set", "bytearray", "dict", "pow", "bin", "oct", "round", "repr", "map", "filter", "frozenset", "float",
-                      "callable", "id", "memoryview"):
+                      "callable", "id", "memoryview", "format", "ascii", "hash"):
                 args = [self._expr(a, env, mod, cls) for a in e.args]
                 kw = self._kwargs(e, env, mod, cls)
                 for k_ in ("key",):
